@@ -23,7 +23,7 @@ RULE = ("generated signatures (positional-only, positional-or-keyword, *args, ke
 ASSUMPTIONS = ["argument values are JSON-native so that tape copies compare by equality"]
 BATCH = 25
 
-ORDINARY = ["a", "b", "c", "x", "y", "key", "value", "n"]
+ORDINARY = ["a", "b", "c", "x", "y", "key", "value", "n", "m", "p", "q2", "item"]
 SPECIAL = ["logger", "action_type", "_serializers", "fields", "self", "task_uuid", "task_level", "timestamp", "action_status",
            "message_type", "exception", "reason", "result", "args", "kwargs", "wrapped_function", "include_args", "include_result",
            "ctx", "callargs", "_call", "cls", "f", "exc", "serializers", "_func", "func"]
